@@ -20,7 +20,11 @@ PLAN = dict(
          "representation / candidate kind)",
     jobs=both("c09.g1", _CFG, shards=(2, 8), floor=1000) + both("c09.g2", _CFG, shards=(2, 8), floor=1000)
     + both("c09.gt", _CFG, shards=(2, 8), floor=1000) + both("c09.pairing", _CFG, shards=(4, 16), floor=200)
-    + both("c09.decode", _CFG, shards=(2, 8), floor=200),
+    + both("c09.decode", _CFG, shards=(2, 8), floor=200)
+    # the plugin-tag build: gfp_plugin_amd64.s with the generic gfp2/g1 helpers
+    + plugin("c09.g1", shards=(1, 4), floor=1000) + plugin("c09.g2", shards=(1, 4), floor=1000)
+    + plugin("c09.gt", shards=(1, 4), floor=1000) + plugin("c09.pairing", shards=(2, 8), floor=200)
+    + plugin("c09.decode", shards=(1, 4), floor=200),
     assumptions=[
         "reference model harness/ref/bn (Fp, Fp2, Fp12 = Fp[w]/(w^12+2), affine G1/G2, encodings), validated at every child start: "
         "BN polynomials, [n]P1 = [n]P2 = O, twist order n(2p-n), GM/T 0044.5 annex A/B/C key, signature and ciphertext points, the "
@@ -43,8 +47,8 @@ CLAIM = dict(
          "doubling and all encodings are compared with exact affine big-integer arithmetic; GT multiplication and the four "
          "exponentiation entry points with exact arithmetic in Fp[w]/(w^12+2); the pairing with the GM/T 0044.5 published values, with "
          "g0^(ab) for e([a]P1,[b]P2), with its laws and with f^((p^12-1)/n) for the final exponentiation; the five decoders with a "
-         "strict reference accept set (canonical coordinates, on curve, re-encoding identical). ADX, non-ADX, AVX2/SSE select and "
-         "purego back ends. Held on the cases executed; not a proof.",
+         "strict reference accept set (canonical coordinates, on curve, re-encoding identical). ADX, non-ADX, AVX2/SSE select, "
+         "plugin-tag assembly (with and without ADX) and purego back ends. Held on the cases executed; not a proof.",
     design_ref="DESIGN.md 6 (C09)",
     note="trusted: harness/ref/bn, math/big, the published GM/T 0044.5 values; no independent Miller loop; subgroup membership of "
          "decoded G2 points is not demanded; arm64/ppc64le assembly is not executed here",
